@@ -42,6 +42,8 @@ var props = map[string]*propInfo{
 	"C10": {},
 	"C11": {},
 	"C12": {},
+	"C14": {},
+	"C15": {},
 }
 
 func loadInfo(bin, id string, p *propInfo) error {
